@@ -35,7 +35,7 @@ def work(case):
         edits = editgen.gen_mixed_batch(rng, doc, texts, rng.randint(1, 3), comment_p=0.5, states=("plain", "ins"))
         if rng.random() < 0.4:
             # a quote from the accepted view that ends with another reviewer's pending insertion
-            x = editgen.gen_cross_ins_edit(rng, doc, texts)
+            x = editgen.gen_cross_ins_edit(rng, doc, texts) + editgen.gen_cross_ins_any(rng, doc, texts)
             edits += [e for e in x if not any(e["pi"] == y.get("pi") for y in edits)]
     actions = case.get("actions")
     if actions is None:
